@@ -141,36 +141,41 @@ def analyse_loader(repo: Repo, ci: ClassInfo):
         return res
     ps = paths_of(fl)
     inner = [x.value for x in ps[0].end[1].elts[0].elts]
+    sd, prefix = positional_params(lf)[:2]
+    # iteration variables over literal lists (for loops and comprehensions)
+    iter_lists = {}
+    for n in ast.walk(lf):
+        gens = []
+        if isinstance(n, ast.For):
+            gens = [(n.target, n.iter)]
+        elif isinstance(n, (ast.ListComp, ast.DictComp, ast.SetComp, ast.GeneratorExp)):
+            gens = [(g.target, g.iter) for g in n.generators]
+        for tgt, it in gens:
+            if isinstance(tgt, ast.Name) and isinstance(it, (ast.List, ast.Tuple)) and all(isinstance(x, ast.Constant) for x in it.elts):
+                iter_lists[tgt.id] = [x.value for x in it.elts]
     popped, recursed = set(), {}
     for n in ast.walk(lf):
-        if isinstance(n, ast.Call) and isinstance(n.func, ast.Attribute) and n.func.attr == "pop" and n.args:
+        if isinstance(n, ast.Call) and isinstance(n.func, ast.Attribute) and n.func.attr == "pop" and U(n.func.value) == sd and n.args:
             a = n.args[0]
-            if isinstance(a, ast.BinOp) and isinstance(a.op, ast.Add) and U(a.left) == "prefix":
+            if isinstance(a, ast.BinOp) and isinstance(a.op, ast.Add) and U(a.left) == prefix:
                 if isinstance(a.right, ast.Constant):
                     popped.add(a.right.value)
-                elif isinstance(a.right, ast.Name):
-                    popped.add(("var", a.right.id))
-        if isinstance(n, ast.Call) and isinstance(n.func, ast.Attribute) and n.func.attr == "load_from_state_dict" and len(n.args) == 2:
+                elif isinstance(a.right, ast.Name) and a.right.id in iter_lists:
+                    popped |= set(iter_lists[a.right.id])
+        if isinstance(n, ast.Call) and isinstance(n.func, ast.Attribute) and n.func.attr == "load_from_state_dict" and len(n.args) == 2 and U(n.args[0]) == sd:
             a = n.args[1]
-            if isinstance(a, ast.BinOp) and isinstance(a.right, ast.Constant) and U(a.left) == "prefix":
+            if isinstance(a, ast.BinOp) and isinstance(a.right, ast.Constant) and U(a.left) == prefix:
                 recursed[a.right.value] = U(n.func.value)
-    # loops `for name in [..]: pop(prefix + name)`
-    loop_names = set()
-    for n in ast.walk(lf):
-        if isinstance(n, ast.For) and isinstance(n.iter, (ast.List, ast.Tuple)) and all(isinstance(x, ast.Constant) for x in n.iter.elts) and isinstance(n.target, ast.Name):
-            if any(isinstance(c, ast.Call) and isinstance(c.func, ast.Attribute) and c.func.attr == "pop" and ("var", n.target.id) in {("var", U(c.args[0].right))} for c in ast.walk(n) if isinstance(c, ast.Call) and c.args and isinstance(c.args[0], ast.BinOp)):
-                loop_names |= {x.value for x in n.iter.elts}
-    got = {x for x in popped if isinstance(x, str)} | loop_names | {k.rstrip(".") for k in recursed}
+    got = popped | {k.rstrip(".") for k in recursed}
     ok = got == set(inner)
     res.append(("R1", "ok" if ok else "bad", lf.lineno, f"{ci.name} loader inner keys", f"{ci.name}.load_from_state_dict pops/recurses {sorted(got)}; __tensor_flatten__ lists {inner}", "every frozen state_dict of this class (missing or left-over keys)"))
     for k, cls in recursed.items():
         ok = k.endswith(".")
         res.append(("R1", "ok" if ok else "bad", lf.lineno, f"{ci.name} loader prefix {k}", f"{ci.name} recurses into {cls} with prefix + {k!r} (the writer joins nested names with '.')", "every frozen low-bit state_dict (KeyError)"))
-    # the result goes through __tensor_unflatten__ of the same class with the collected dicts
     ok = any(isinstance(n, ast.Call) and U(n.func) == f"{ci.name}.__tensor_unflatten__" for n in ast.walk(lf))
     res.append(("R1", "ok" if ok else "bad", lf.lineno, f"{ci.name} loader unflatten", f"{ci.name}.load_from_state_dict rebuilds through {ci.name}.__tensor_unflatten__", "every frozen state_dict"))
-    # meta keys: everything left under the prefix
-    txt = U(lf)
-    ok = "name.startswith(prefix)" in txt and "name.replace(prefix, '')" in txt
-    res.append(("R1", "ok" if ok else "unknown", lf.lineno, f"{ci.name} loader meta", f"{ci.name}.load_from_state_dict collects the remaining keys under the prefix as meta", ""))
+    # meta keys: every remaining key under the prefix is popped with the prefix stripped
+    strips = any(isinstance(n, ast.Call) and isinstance(n.func, ast.Attribute) and n.func.attr in ("replace", "removeprefix") and n.args and U(n.args[0]) == prefix for n in ast.walk(lf)) or any(isinstance(n, ast.Subscript) and isinstance(n.slice, ast.Slice) and n.slice.lower is not None and U(n.slice.lower) == f"len({prefix})" for n in ast.walk(lf))
+    filters = any(isinstance(n, ast.Call) and isinstance(n.func, ast.Attribute) and n.func.attr == "startswith" and n.args and U(n.args[0]) == prefix for n in ast.walk(lf))
+    res.append(("R1", "ok" if (strips and filters) else "unknown", lf.lineno, f"{ci.name} loader meta", f"{ci.name}.load_from_state_dict collects the remaining keys under the prefix as meta", ""))
     return res
